@@ -53,6 +53,7 @@ def run(repo, rep):
     rule_order(repo, rep)
     rule_singletons(repo, rep)
     rule_shared_tables(repo, rep)
+    rule_interpreter_settings(repo, rep)
     # the graph name is the input file's base name (path entry points) or a constant (convert_bytes): nothing that is written to the
     # output model - subgraph names prefix the command-stream / flash / scratch tensor names - may be derived from it
     rd = repo.mod("tflite_reader")
@@ -615,3 +616,37 @@ def rule_shared_tables(repo, rep):
                       "accelerator derives block sizes and cycle estimates from the changed micro-block")
     if n < 3:
         raise AnalysisError(f"shared accelerator table readers: only {n} found")
+
+
+def rule_interpreter_settings(repo, rep):
+    """(f) interpreter-wide settings are part of the process state that outlives a compilation. The recursion limit decides whether a deep
+    network compiles; every entry point sets it to an absolute value (a constant, or the option of this call), unconditionally - a
+    'raise it if it is lower' keeps whatever an earlier compilation in the process left."""
+    rep.clause("C14-f", "every entry point sets the interpreter's recursion limit to an absolute value of its own (never conditionally on the current limit): whether a deep network compiles does not depend on earlier compilations")
+    vm = repo.mod("vela")
+    n = 0
+    sets = {}
+    for q, fn in vm.functions.items():
+        for c in walk_no_nested(fn):
+            if isinstance(c, ast.Call) and str(norm(c.func)) == "sys.setrecursionlimit":
+                n += 1
+                cur, cond = c, None
+                while cur is not fn and cur is not None:
+                    pp = vm.parents.get(cur)
+                    if isinstance(pp, (ast.If, ast.IfExp, ast.While)) and "getrecursionlimit" in str(norm(pp.test)):
+                        cond = pp
+                    cur = pp
+                arg_reads_current = "getrecursionlimit" in str(norm(c.args[0])) if c.args else True
+                sets.setdefault(q, []).append(c)
+                rep.check(cond is None and not arg_reads_current, "C14-f", f"ethosu/vela/vela.py:{q}", f"`{str(norm(c))}` sets an absolute limit unconditionally",
+                          f"depends on the limit currently in force (`{str(norm(cond.test)) if cond is not None else str(norm(c.args[0]))}`): a limit raised by an earlier compilation in the process persists, and a "
+                          "network that ends in RecursionError when compiled alone compiles after it")
+    # every entry point reaches such a call: directly or through a helper of this module
+    for entry in ("convert", "convert_bytes", "main"):
+        fn = vm.func(entry)
+        direct = entry in sets
+        via = [str(norm(c.func)) for c in walk_no_nested(fn) if isinstance(c, ast.Call) and isinstance(c.func, ast.Name) and c.func.id in sets]
+        rep.check(direct or bool(via), "C14-f", f"ethosu/vela/vela.py:{entry}", "the entry point sets the recursion limit", "no sys.setrecursionlimit reached from this entry point")
+    if n < 2:
+        raise AnalysisError(f"sys.setrecursionlimit calls in vela.py: {n}")
+    rep.floor("C14-f", 5)
